@@ -854,6 +854,9 @@ func (m *stringMap) Get(k Value) (Value, bool) {
 func (m *stringMap) Set(k, v Value) {
 	key := string(k.value.(stringT))
 	if _, ok := m.data[key]; !ok {
+		if len(m.keys) > len(m.data) {
+			m.keys = maps.Keys(m.data) // drop the keys of deleted entries, this one may be among them
+		}
 		m.keys = append(m.keys, key)
 	}
 	m.data[key] = v.assign(m.valueType)
@@ -934,6 +937,9 @@ func (m *numericMap) Get(k Value) (Value, bool) {
 func (m *numericMap) Set(k, v Value) {
 	key := k.num
 	if _, ok := m.data[key]; !ok {
+		if len(m.keys) > len(m.data) {
+			m.keys = maps.Keys(m.data) // drop the keys of deleted entries, this one may be among them
+		}
 		m.keys = append(m.keys, key)
 	}
 	m.data[key] = v.assign(m.valueType)
